@@ -259,7 +259,7 @@ func (fs Facts) add(f fact) (Facts, bool) {
 func (fs Facts) kill(name string) Facts {
 	var out Facts
 	for _, f := range fs {
-		if f.key == name || strings.HasPrefix(f.key, name+".") || strings.HasPrefix(f.key, name+"[") {
+		if f.key == name || (strings.HasPrefix(f.key, name) && len(f.key) > len(name) && strings.ContainsRune(".[<>=!", rune(f.key[len(name)]))) {
 			continue
 		}
 		// a fact "x == y" style is never stored (values are constants), so no RHS kill needed
@@ -435,6 +435,12 @@ func (fl *Flow) alts(cond ast.Expr, outcome bool) [][]fact {
 			}
 			if k, v := fl.trackKey(c.Y), fl.atomVal(c.X); k != "" && v != "" && fl.atomVal(c.Y) == "" {
 				return [][]fact{{{k, eq, v}}}
+			}
+		case token.LSS, token.LEQ, token.GTR, token.GEQ:
+			// an ordered comparison of a trackable expression with a constant
+			// is remembered as an opaque boolean fact keyed by its text
+			if k, v := fl.trackKey(c.X), fl.atomVal(c.Y); k != "" && v != "" && fl.atomVal(c.X) == "" {
+				return [][]fact{{{k + c.Op.String() + v, true, fmt.Sprint(outcome)}}}
 			}
 		}
 	case *ast.Ident:
